@@ -15,7 +15,7 @@ LEVEL = "fault_enumeration"
 RULE = (
     "Fault enumeration over Hypothesis-generated well-formed charts (tempo maps of 1..12 tempo events "
     "quick, ..40 thorough, with time-signature, global, note, star-power and track events): for each "
-    "chart EVERY single corruption of the sync data at EVERY position k is applied: drop / shift the "
+    "chart EVERY single corruption of the sync data at EVERY position k (for maps of more than 64 tempo events: a fixed sample of positions) is applied: drop / shift the "
     "tick-0 tempo, drop / shift the tick-0 time signature, duplicate tempo k's tick, swap tempo lines "
     "k and j (all k, j adjacent + one drawn far pair), zero tempo ('B 0', 'B 000') at k, 'Resolution = "
     "0' / '00', empty sync body, zero tempo appended after every event; plus direct "
@@ -108,7 +108,12 @@ def check_case(ctx: Ctx, case) -> None:
     faults.append(("shift_first_tempo", 0, variant(lambda s: s[b_idx[0]].__setitem__(0, sh)), None, "raise"))
     faults.append(("drop_first_ts", 0, variant(lambda s: s.__delitem__(ts0)), None, "raise"))
     faults.append(("shift_first_ts", 0, variant(lambda s: s[ts0].__setitem__(0, sh)), None, "raise"))
-    for k in range(nb):
+    # every position for ordinary maps; for LONG maps (65..300 tempo events) the first and last eight, the
+    # neighbourhoods of 64 / 128 / 256 and every 16th position (each fault costs a whole parse)
+    positions = range(nb) if nb <= 64 else sorted(
+        {k for k in list(range(8)) + list(range(nb - 8, nb)) + list(range(60, 69)) + list(range(124, 133))
+         + list(range(252, 261)) + list(range(0, nb, 16)) if 0 <= k < nb})
+    for k in positions:
         i = b_idx[k]
         faults.append(("duplicate_tempo_tick", k,
                        variant(lambda s, i=i: s.insert(i + 1, [s[i][0], "B", 100000])), None, "raise"))
